@@ -38,6 +38,8 @@ pub enum K {
     Retfq,
     /// page fault resolved by the software MMU (E5)
     PageFault,
+    /// pushfq emulated in single-step mode (value pushed in `val`)
+    Pushfq,
 }
 
 #[derive(Clone, Copy, Debug)]
@@ -77,6 +79,9 @@ static OVERFLOW: AtomicBool = AtomicBool::new(false);
 static ARMED: AtomicBool = AtomicBool::new(false);
 static INSTALLED: AtomicBool = AtomicBool::new(false);
 pub static TRAPS: AtomicU64 = AtomicU64::new(0);
+/// single-step mode (RFLAGS.TF): every instruction raises SIGTRAP; `pushfq` is emulated against the emulated IF
+static STEPPING: AtomicBool = AtomicBool::new(false);
+pub static STEPS: AtomicU64 = AtomicU64::new(0);
 
 pub const MSR_SLOTS: usize = 64;
 
@@ -579,6 +584,35 @@ extern "C" fn handler(sig: i32, info: *mut libc::siginfo_t, uc: *mut libc::c_voi
     unsafe {
         let uc = uc as *mut libc::ucontext_t;
         let ctx = Ctx { g: (*uc).uc_mcontext.gregs.as_mut_ptr() };
+        if sig == libc::SIGTRAP {
+            let efl = ctx.g.add(libc::REG_EFL as usize);
+            if !STEPPING.load(Ordering::Relaxed) {
+                *efl &= !0x100; // stop single-stepping
+                return;
+            }
+            STEPS.fetch_add(1, Ordering::Relaxed);
+            // emulate every pushfq that is about to execute (it cannot be trapped otherwise)
+            loop {
+                let rip = ctx.rip();
+                if *(rip as *const u8) != 0x9c {
+                    break;
+                }
+                let r = regs();
+                let mut fl = (*efl as u64) & !0x100;
+                fl = (fl & !0x200) | ((r.iflag as u64) << 9);
+                let rsp = ctx.get(4) - 8;
+                core::ptr::write_unaligned(rsp as *mut u64, fl);
+                ctx.set(4, rsp);
+                ctx.set_rip(rip + 1);
+                let mut ev = Event::empty();
+                ev.kind = K::Pushfq;
+                ev.val = fl;
+                ev.rip = rip;
+                ev.len = 1;
+                push_event(ev);
+            }
+            return;
+        }
         TRAPS.fetch_add(1, Ordering::Relaxed);
         let addr = (*info).si_addr() as u64;
         let armed = ARMED.load(Ordering::Relaxed);
@@ -630,7 +664,24 @@ pub fn install() {
         libc::sigaction(libc::SIGSEGV, &sa, core::ptr::null_mut());
         libc::sigaction(libc::SIGILL, &sa, core::ptr::null_mut());
         libc::sigaction(libc::SIGBUS, &sa, core::ptr::null_mut());
+        libc::sigaction(libc::SIGTRAP, &sa, core::ptr::null_mut());
     }
+}
+
+/// start single-stepping: every following instruction traps (slow: ~1-2 us per instruction)
+#[inline(never)]
+pub fn step_begin() {
+    STEPS.store(0, Ordering::SeqCst);
+    STEPPING.store(true, Ordering::SeqCst);
+    unsafe { core::arch::asm!("pushfq", "or qword ptr [rsp], 0x100", "popfq") };
+}
+
+/// stop single-stepping (the next trap clears TF); returns the number of instructions stepped
+#[inline(never)]
+pub fn step_end() -> u64 {
+    STEPPING.store(false, Ordering::SeqCst);
+    unsafe { core::arch::asm!("nop", "nop") };
+    STEPS.load(Ordering::SeqCst)
 }
 
 pub fn arm(on: bool) {
